@@ -10,15 +10,19 @@ def make_batches(pid, n_quick, n_thorough, n_ops=(6, 12)):
         cases = []
         for i in range(n):
             want_clean = rng.random() < 0.9
+            fixsel = (i % 8) == 5        # FAST encoder, a choice constraint, a selection variable fixed from the start
             for _try in range(60):
-                c = (dsgcase.gen_layered(rng, cons_prob=0.4) if (i % 3) == 2 else
-                     dsgcase.gen_sel(rng, max_nodes=10, max_choices=3, cons_prob=0.1))
+                c = (dsgcase.gen_flat_cons(rng) if fixsel and (i % 16) == 5 else
+                     dsgcase.gen_layered(rng, cons_prob=1.0 if fixsel else 0.4) if (i % 3) == 2 else
+                     dsgcase.gen_sel(rng, max_nodes=10, max_choices=3, cons_prob=1.0 if fixsel else 0.1))
                 if (not want_clean or not dsgcase.guards(c)) and len(c['sel']) >= 1:
                     break
             c = procdrive.decorate(rng, c, n_dv=(0, 2))
             c['_i'] = i
             c['_kind'] = ['complete', 'complete', 'fast', 'complete'][i % 4]
             c['_nops'] = rng.randint(*n_ops)
+            if fixsel:
+                c['_kind'], c['_profile'] = 'fast', 'fixsel'
             cases.append(c)
         yield 'g-ops', cases
     return batches
@@ -28,7 +32,7 @@ def make_run_case(clauses):
     def run_case(case):
         c = {k: v for k, v in case.items() if not k.startswith('_')}
         r = opsdrive.run(c, case.get('_kind', 'complete'), seed=case.get('_i', 0), n_ops=case.get('_nops', 8),
-                         ops=case.get('_ops'))
+                         ops=case.get('_ops'), profile=case.get('_profile'))
         if r.get('skip'):
             return r
         r.setdefault('tags', []).append('guard:%s' % ('+'.join(sorted(dsgcase.guards(c))) or 'none'))
